@@ -47,6 +47,8 @@ def sliver_class(s, e, T):
     if T is None:
         return "no" if F(e) > F(s) else "yes"
     d = F(e) - F(s)
+    if d == T:
+        return "no"  # exactly the threshold is "at least that long" (and the float subtraction is exact then)
     band = 4 * F(2) ** -52 * max(abs(F(e)), F(1, 10 ** 300))
     if abs(d - T) <= band:
         return "maybe"
